@@ -412,15 +412,12 @@ Proof.
     pose proof (db_insert_batch_hash _ _ _ _ Eb Hh). destruct ok; inversion Hd; subst; assumption.
 Qed.
 
-Lemma bulk_loop_hash src : forall t seen_pk seen_uq cnt ins t' res ins',
-  hash_mirror t -> bulk_loop t seen_pk seen_uq src cnt ins = (t', res, ins') -> hash_mirror t'.
+Lemma bulk_insert_hash src : forall t cnt ins t' res ins',
+  hash_mirror t -> bulk_insert t src cnt ins = (t', res, ins') -> hash_mirror t'.
 Proof.
-  induction src as [|r src IH]; intros t seen_pk seen_uq cnt ins t' res ins' Hh Hl; cbn [bulk_loop] in Hl.
+  induction src as [|r src IH]; intros t cnt ins t' res ins' Hh Hl; cbn [bulk_insert] in Hl.
   - inversion Hl; subst; exact Hh.
-  - destruct (negb (bulk_pk_ok t seen_pk r)); [inversion Hl; subst; exact Hh|].
-    destruct (negb (bulk_unique_ok (s_uniqs (t_sch t)) seen_uq (t_uqidx t) r)); [inversion Hl; subst; exact Hh|].
-    destruct (negb (checks_ok (s_checks_enf (t_sch t)) r)); [inversion Hl; subst; exact Hh|].
-    destruct (db_insert_row t r) as [t1 ok] eqn:Ei. rewrite db_insert_row_as_batch in Ei.
+  - destruct (db_insert_row t r) as [t1 ok] eqn:Ei. rewrite db_insert_row_as_batch in Ei.
     pose proof (db_insert_batch_hash _ _ _ _ Ei Hh) as H1.
     destruct ok; [eapply IH; eauto | inversion Hl; subst; exact H1].
 Qed.
@@ -429,9 +426,11 @@ Lemma do_insert_select_hash dst same src_sch src_rows sel t' res ins :
   hash_mirror dst -> do_insert_select dst same src_sch src_rows sel = (t', res, ins) -> hash_mirror t'.
 Proof.
   intros Hh Hd. unfold do_insert_select in Hd.
-  destruct (negb same && bulk_compatible (t_sch dst) src_sch); [eapply bulk_loop_hash; eauto|].
-  destruct (negb (s_ncols src_sch =? s_ncols (t_sch dst))); [inversion Hd; subst; exact Hh|].
-  eapply do_insert_values_hash; eauto.
+  destruct (negb same && bulk_compatible (t_sch dst) src_sch).
+  - destruct (bulk_validate dst [] (map (fun _ => []) (s_uniqs (t_sch dst))) src_rows);
+      [eapply bulk_insert_hash; eauto | inversion Hd; subst; exact Hh].
+  - destruct (negb (s_ncols src_sch =? s_ncols (t_sch dst))); [inversion Hd; subst; exact Hh|].
+    eapply do_insert_values_hash; eauto.
 Qed.
 
 Lemma tbl_delete_at_hash t del : hash_mirror t -> hash_mirror (fst (tbl_delete_at t del)).
@@ -450,11 +449,16 @@ Proof.
   apply IH. apply Forall_upd_nth_const; [exact Hf|]. apply tbl_delete_at_hash. eapply Forall_nth_error; eauto.
 Qed.
 
-Lemma restore_tabs_hash cur : forall snap,
-  Forall hash_mirror snap -> Forall hash_mirror (restore_tabs cur snap).
+Lemma restore_tabs_hash snap : forall ts ok,
+  Forall hash_mirror snap -> restore_tabs snap = (ts, ok) -> Forall hash_mirror ts.
 Proof.
-  induction cur as [|c cur IH]; intros [|s snap] Hs; cbn; try exact Hs.
-  inversion Hs; subst. constructor; [assumption | apply IH; assumption].
+  induction snap as [|s snap IH]; intros ts ok Hs H; cbn in H.
+  - inversion H; subst. constructor.
+  - inversion Hs; subst. destruct (recreate_uidx (t_uidx s) (t_rows s)) as [us oku]. destruct oku.
+    + destruct (restore_tabs snap) as [ts' ok2] eqn:Et. inversion H; subst.
+      constructor; [assumption | eapply IH; eauto].
+    + inversion H; subst. constructor; [assumption|]. apply Forall_forall. intros t' Hin.
+      apply in_map_iff in Hin. destruct Hin as [t0 [<- Hin]]. rewrite Forall_forall in H3. apply (H3 t0 Hin).
 Qed.
 
 Lemma on_table_hash d ti f :
@@ -486,7 +490,8 @@ Proof.
     assert (HT : TInv (fst (do_truncate tb))) by (apply do_truncate_TInv; eapply Inv_tab; eauto). apply HT.
   - destruct (nth_error (d_tabs d) t) as [tb|] eqn:Et; [|exact Hh].
     destruct (negb (cols_valid (t_sch tb) cols)); [exact Hh|].
-    destruct (index_exists name (d_tabs d)); [exact Hh|]. cbn.
+    destruct (index_exists name (d_tabs d)); [exact Hh|].
+    destruct (uniq && has_dup (somes (uq_kf cols) (t_rows tb))); [exact Hh|]. cbn.
     apply Forall_upd_nth; [exact Hh|]. intros x _ Hx. exact Hx.
   - destruct (index_exists name (d_tabs d)); [|exact Hh]. cbn.
     rewrite Forall_forall in *. intros t' Hin. apply in_map_iff in Hin. destruct Hin as [t0 [<- Hin]].
@@ -502,8 +507,10 @@ Proof.
     exact (Forall_nth_error _ _ _ _ Hh Et).
   - destruct (d_txn d); exact Hh.
   - destruct (d_txn d); exact Hh.
-  - destruct (d_txn d) as [x|] eqn:Ex; [|exact Hh]. cbn.
-    destruct HI as [_ Hx]. rewrite Ex in Hx. destruct Hx as [Hs _]. apply restore_tabs_hash.
+  - destruct (d_txn d) as [x|] eqn:Ex; [|exact Hh].
+    destruct HI as [_ Hx]. rewrite Ex in Hx. destruct Hx as [Hs _].
+    destruct (restore_tabs (x_snap x)) as [ts ok] eqn:Er. cbn.
+    eapply restore_tabs_hash; [|exact Er].
     eapply Forall_impl; [|exact Hs]. intros t0 HT; apply HT.
   - destruct (d_txn d); exact Hh.
   - destruct (d_txn d) as [x|] eqn:Ex; [|exact Hh].
@@ -524,7 +531,7 @@ Example hash_exact_after_colliding_update :
 Proof. vm_compute. split; reflexivity. Qed.
 
 (* ------------------------------------------------------------------------------------ *)
-(** * User indexes: from an invariant state only ROLLBACK / ROLLBACK TO can break them *)
+(** * User indexes: from an invariant state only ROLLBACK TO SAVEPOINT can break them *)
 
 Lemma user_mirror_same t t' : t_rows t' = t_rows t -> t_uidx t' = t_uidx t -> user_mirror t -> user_mirror t'.
 Proof. unfold user_mirror. intros -> ->. auto. Qed.
@@ -565,15 +572,12 @@ Proof.
     specialize (Hbatch _ _ eq_refl). destruct ok; inversion Hd; subst; exact Hbatch.
 Qed.
 
-Lemma bulk_loop_user src : forall t seen_pk seen_uq cnt ins t' res ins',
-  user_mirror t -> bulk_loop t seen_pk seen_uq src cnt ins = (t', res, ins') -> user_mirror t'.
+Lemma bulk_insert_user src : forall t cnt ins t' res ins',
+  user_mirror t -> bulk_insert t src cnt ins = (t', res, ins') -> user_mirror t'.
 Proof.
-  induction src as [|r src IH]; intros t seen_pk seen_uq cnt ins t' res ins' Hu Hl; cbn [bulk_loop] in Hl.
+  induction src as [|r src IH]; intros t cnt ins t' res ins' Hu Hl; cbn [bulk_insert] in Hl.
   - inversion Hl; subst; exact Hu.
-  - destruct (negb (bulk_pk_ok t seen_pk r)); [inversion Hl; subst; exact Hu|].
-    destruct (negb (bulk_unique_ok (s_uniqs (t_sch t)) seen_uq (t_uqidx t) r)); [inversion Hl; subst; exact Hu|].
-    destruct (negb (checks_ok (s_checks_enf (t_sch t)) r)); [inversion Hl; subst; exact Hu|].
-    destruct (db_insert_row t r) as [t1 ok] eqn:Ei. destruct ok.
+  - destruct (db_insert_row t r) as [t1 ok] eqn:Ei. destruct ok.
     + rewrite db_insert_row_as_batch in Ei. eapply IH; [|exact Hl]. eapply db_insert_batch_user; eauto.
     + apply db_insert_row_fail in Ei. inversion Hl; subst; exact Hu.
 Qed.
@@ -619,7 +623,7 @@ Proof.
 Qed.
 
 Definition not_rollback (s : stmt) : bool :=
-  match s with SRollback | SRollbackTo _ => false | _ => true end.
+  match s with SRollbackTo _ => false | _ => true end.
 
 Lemma on_table_user d ti f :
   Forall user_mirror (d_tabs d) ->
@@ -642,7 +646,9 @@ Proof.
     destruct (do_insert_select td (dst =? src) (t_sch ts) (t_rows ts) sel) as [[t' r] ins] eqn:Ei. cbn.
     apply Forall_upd_nth_const; [exact Hu|]. pose proof (Forall_nth_error _ _ _ _ Hu Ed) as Htd.
     unfold do_insert_select in Ei.
-    destruct (negb (dst =? src) && bulk_compatible (t_sch td) (t_sch ts)); [eapply bulk_loop_user; eauto|].
+    destruct (negb (dst =? src) && bulk_compatible (t_sch td) (t_sch ts)).
+    { destruct (bulk_validate td [] (map (fun _ => []) (s_uniqs (t_sch td))) (t_rows ts));
+        [eapply bulk_insert_user; eauto | inversion Ei; subst; exact Htd]. }
     destruct (negb (s_ncols (t_sch ts) =? s_ncols (t_sch td))); [inversion Ei; subst; exact Htd|].
     eapply do_insert_values_user; eauto.
   - apply on_table_user; [exact Hu|]. intros tb t' r Et Hd. eapply do_update_user; eauto. eapply Inv_tab; eauto.
@@ -653,7 +659,8 @@ Proof.
     assert (HT : TInv (fst (do_truncate tb))) by (apply do_truncate_TInv; eapply Inv_tab; eauto). apply HT.
   - destruct (nth_error (d_tabs d) t) as [tb|] eqn:Et; [|exact Hu].
     destruct (negb (cols_valid (t_sch tb) cols)); [exact Hu|].
-    destruct (index_exists name (d_tabs d)); [exact Hu|]. cbn.
+    destruct (index_exists name (d_tabs d)); [exact Hu|].
+    destruct (uniq && has_dup (somes (uq_kf cols) (t_rows tb))); [exact Hu|]. cbn.
     apply Forall_upd_nth; [exact Hu|]. intros x _ Hx. unfold user_mirror in *. cbn.
     apply Forall_app; split; [exact Hx|]. constructor; [|constructor]. cbn. apply ui_equiv_refl.
   - destruct (index_exists name (d_tabs d)); [|exact Hu]. cbn.
@@ -671,6 +678,11 @@ Proof.
     exact (Forall_nth_error _ _ _ _ Hu Et).
   - destruct (d_txn d); exact Hu.
   - destruct (d_txn d); exact Hu.
+  - destruct (d_txn d) as [x|] eqn:Ex; [|exact Hu].
+    destruct HI as [_ Hx]. rewrite Ex in Hx. destruct Hx as [Hs _].
+    destruct (restore_tabs (x_snap x)) as [ts ok] eqn:Er. cbn.
+    destruct (restore_tabs_TInv _ _ _ Hs Er) as [R1 _].
+    eapply Forall_impl; [|exact R1]. intros t0 HT; apply HT.
   - destruct (d_txn d); exact Hu.
   - destruct (d_txn d) as [x|] eqn:Ex; [|exact Hu].
     destruct (save_pos name (x_saves x) 0) as [[pos idx]|]; exact Hu.
